@@ -1,6 +1,7 @@
 package wire
 
 import (
+	"bufio"
 	"bytes"
 	"net/http"
 	"sort"
@@ -200,6 +201,25 @@ func buildFlashApp(spec *flashSpec, lookKeys []string) *flashApp {
 
 func (fa *flashApp) serveB(e *ev.Env, c *ev.Case, cookie []byte, hasCookie bool) (rs []*strict.Response, perr *strict.ParseError, out []byte, panicked bool) {
 	return fa.serveAt(e, c, fa.pathB, cookie, hasCookie)
+}
+
+// deliverInProcess runs the real request handler on a request for path that carries cookie as the
+// flash cookie. The request head is parsed from wire bytes (so the raw header bytes name the
+// cookie, as fiber requires), the value is then set on the parsed request: the only thing skipped
+// is fasthttp's refusal of control bytes in header values.
+func (fa *flashApp) deliverInProcess(e *ev.Env, c *ev.Case, path string, cookie []byte) (ran, panicked bool) {
+	*fa.rep = bReport{}
+	var req fasthttp.Request
+	head := "GET " + path + " HTTP/1.1\r\nHost: flash.example.com\r\nX-Carries: " + fiber.FlashCookieName + "\r\n\r\n"
+	if err := req.Read(bufio.NewReader(strings.NewReader(head))); err != nil {
+		return false, false
+	}
+	req.Header.SetCookieBytesKV([]byte(fiber.FlashCookieName), cookie)
+	var fctx fasthttp.RequestCtx
+	fctx.Init(&req, drive.DefaultRemote, nil)
+	h := fa.app.Handler()
+	panicked = e.Guard(c, "flash", hexOf(cookie), func() { h(&fctx) })
+	return fa.rep.ran, panicked
 }
 
 func (fa *flashApp) serveAt(e *ev.Env, c *ev.Case, path string, cookie []byte, hasCookie bool) (rs []*strict.Response, perr *strict.ParseError, out []byte, panicked bool) {
@@ -741,7 +761,10 @@ func runFlash(e *ev.Env) {
 			hostileCookie(e, c, "", append(b, tail...))
 		case 10:
 			// huge announced map / string sizes, deep nesting behind an unknown field
-			switch r.Intn(3) {
+			switch r.Intn(4) {
+			case 3:
+				// a complete MessagePack object that is no array: a message map alone, a string
+				hostileCookie(e, c, "", gen.Pick(r, [][]byte{mpMsg(nil, mk(1)[0]), mpStr(nil, safeBytes(r, 8)), {0xc3}, {0x2a}}))
 			case 0:
 				b := mpArrayHdr(nil, 1, 0)
 				b = mpMapHdr(b, 0xffffffff, 32)
@@ -906,6 +929,33 @@ func k1(e *ev.Env, c *ev.Case, detail map[string]any, class, what string) {
 
 // rawBytesClass names what in the bytes of an encoding keeps it from travelling as a cookie value
 // ("" when nothing does).
+// scrubRisk: what was attached contains CR or LF - in a text, as a level, or in the bytes of a
+// text's length - which the header scrubbing replaces in any MessagePack layout.
+func scrubRisk(want []fmsg, old map[string]string) bool {
+	lb := func(s string) bool {
+		if strings.ContainsAny(s, "\r\n") {
+			return true
+		}
+		for n := len(s); n >= 256; n >>= 8 {
+			if b := n & 0xff; b == '\r' || b == '\n' {
+				return true
+			}
+		}
+		return len(s) >= 256 && (len(s)>>8 == '\r' || len(s)>>8 == '\n')
+	}
+	for _, m := range want {
+		if lb(m.Key) || lb(m.Value) || m.Level == '\r' || m.Level == '\n' {
+			return true
+		}
+	}
+	for k, v := range old {
+		if lb(k) || lb(v) {
+			return true
+		}
+	}
+	return false
+}
+
 func rawBytesClass(enc []byte) string {
 	switch {
 	case bytes.IndexByte(enc, '\n') >= 0 || bytes.IndexByte(enc, '\r') >= 0:
@@ -916,7 +966,7 @@ func rawBytesClass(enc []byte) string {
 		return "control-bytes"
 	case bytes.IndexByte(enc, ';') >= 0:
 		return "cut-at-semicolon"
-	case !bytes.Equal(serverView(enc), enc):
+	case !bytes.Equal(serverView(enc), enc), !bytes.Equal(bytes.Trim(enc, " \t"), enc):
 		return "trimmed-by-cookie-syntax"
 	}
 	return ""
@@ -965,33 +1015,43 @@ func flashScript(e *ev.Env, c *ev.Case, spec *flashSpec, reqA []byte) {
 		e.Stat("scripts_nothing_attached", 1)
 	}
 
-	// the bytes of the issued cookie, read with the reference decoder: whatever the client does
-	// with them, they must be a well-formed encoding of exactly what was attached
+	// The bytes of the issued cookie are no verdict by themselves (the statement does not fix the
+	// encoding): the reference decoder only classifies and counts. What is judged is the round
+	// trip through the real server, against what handler A attached.
+	issued, haveIssued := rawFlashValue(out1)
+	scrub := scrubRisk(want, wantOld)
 	if attached > 0 {
-		if raw, ok := rawFlashValue(out1); !ok {
+		switch got, wf := mpWellFormed(issued); {
+		case !haveIssued:
 			e.Violation(c, "flash|cookie-not-set", "no flash cookie in the response of the redirecting handler although "+itoa(attached)+" items were attached", detail)
-		} else if enc := mpFlash(wantList(want, wantOld)); bytes.IndexByte(enc, '\n') >= 0 || bytes.IndexByte(enc, '\r') >= 0 {
-			// CR/LF bytes of the encoding are replaced by SP on the way into the header: judged
-			// as part of the raw-MessagePack finding below, not here
+		case scrub:
+			// CR/LF bytes of the encoding are replaced by SP on the way into the header
 			e.Stat("issued_cookie_has_scrubbed_bytes", 1)
-			_ = raw
-		} else if got, wf := mpWellFormed(raw); !wf {
-			detail["issued_cookie"] = show(raw)
-			e.Violation(c, "flash|issued-cookie-differs|not-a-well-formed-encoding", "the issued cookie is not a well-formed encoding of a message list", detail)
-		} else if what := diffEncoded(got, wantList(want, wantOld)); what != "" {
-			detail["issued_cookie"] = show(raw)
-			e.Violation(c, "flash|issued-cookie-differs|"+what, "the issued cookie does not encode what was attached", detail)
-		} else {
-			e.Stat("issued_cookie_encodes_attached", 1)
+		case !wf:
+			e.Stat("issued_format_unrecognised", 1)
+		case diffEncoded(got, wantList(want, wantOld)) != "":
+			e.Stat("issued_format_recognised_but_differs", 1)
+		default:
+			e.Stat("issued_format_recognised", 1)
 		}
 	}
+	// k1Class: what in the bytes actually issued keeps the cookie from travelling as it is
+	k1Class := func() string {
+		if scrub {
+			return "line-break-bytes"
+		}
+		if haveIssued {
+			return rawBytesClass(issued)
+		}
+		return ""
+	}
+	roundTripJudged := false
 
 	jar := &strict.Jar{}
 	strictOK := false
 	var lenient []byte
 	haveLenient := false
 	client := "strict"
-	enc := mpFlash(wantList(want, wantOld))
 	rs1, perr := strict.ParseAll(out1, nil)
 	switch {
 	case perr != nil:
@@ -1000,8 +1060,8 @@ func flashScript(e *ev.Env, c *ev.Case, spec *flashSpec, reqA []byte) {
 			// an attacker-named header line: its own signature
 			detail["header"] = name
 			e.Violation(c, "flash|injected-header-line|after:"+after, "a header line named by message bytes appears in the response of the redirecting handler: "+name, detail)
-		} else if strings.HasPrefix(site, "set-cookie") || rawBytesClass(enc) != "" {
-			cls := rawBytesClass(enc)
+		} else if strings.HasPrefix(site, "set-cookie") || k1Class() != "" {
+			cls := k1Class()
 			if cls == "" {
 				cls = perr.Class
 			}
@@ -1096,7 +1156,7 @@ func flashScript(e *ev.Env, c *ev.Case, spec *flashSpec, reqA []byte) {
 			if hasCTL(cookie) {
 				e.Stat("refused_cookie_has_ctl", 1)
 			}
-			if hasCTL(cookie) || rawBytesClass(enc) != "" {
+			if hasCTL(cookie) || k1Class() != "" {
 				k1(e, c, detail, "request-refused-by-server", "the server answers 400 to the request that presents the cookie it issued itself")
 			} else {
 				e.Violation(c, "flash|request-refused-by-server", "the server answers 400 to the request that presents the cookie it issued itself (no control byte in it)", detail)
@@ -1109,7 +1169,7 @@ func flashScript(e *ev.Env, c *ev.Case, spec *flashSpec, reqA []byte) {
 			if what != "" {
 				// the bytes of the encoding explain it: the known raw-MessagePack finding
 				detail["why"] = why
-				if cls := rawBytesClass(enc); cls != "" && client != "strict" {
+				if cls := k1Class(); cls != "" && client != "strict" {
 					k1(e, c, detail, "messages-differ-"+cls, "handler B does not see what was attached ("+client+" client): "+why)
 					what = "raw-bytes"
 				} else {
@@ -1118,6 +1178,7 @@ func flashScript(e *ev.Env, c *ev.Case, spec *flashSpec, reqA []byte) {
 			} else if attached > 0 {
 				e.Stat("delivered_intact_"+client, 1)
 			}
+			roundTripJudged = what != "raw-bytes"
 			// the response must expire the cookie the client holds: a Set-Cookie line replaces or
 			// deletes the stored cookie with the same name and path only (RFC 6265 §5.3), and a
 			// line without Path attribute gets the default-path of this request (§5.1.4)
@@ -1148,6 +1209,25 @@ func flashScript(e *ev.Env, c *ev.Case, spec *flashSpec, reqA []byte) {
 				e.Stat("complete_scripts_with_messages", 1)
 				e.Sample("script", map[string]any{"with": ml, "client": client, "differs": what, "second_delivery": secondDelivery})
 				e.Nontrivial("script", itoa(len(want)), itoa(len(wantOld)), client, what, strconv.FormatBool(secondDelivery))
+			}
+		}
+	}
+
+	// ---- the cookie could not travel as it is (control bytes, ';', white space at an end): hand
+	// the very bytes that were issued to the real server in process, past fasthttp's header
+	// validation, so that what was attached is still compared with what the next handler sees
+	if attached > 0 && haveIssued && !scrub && !roundTripJudged {
+		if ran, p := fa.deliverInProcess(e, c, fa.pathB, issued); p {
+			return
+		} else if ran {
+			e.Eval(1)
+			e.Stat("delivered_in_process", 1)
+			rep := *fa.rep
+			if what, why := diffMessages(spec, want, wantOld, &rep); what != "" {
+				detail["why"], detail["delivery"] = why, "in-process: issued bytes handed to the server past the header validation"
+				e.Violation(c, "flash|messages-differ|"+what, "handler B does not see what was attached (issued cookie delivered in process): "+why, detail)
+			} else {
+				e.Stat("delivered_intact_in_process", 1)
 			}
 		}
 	}
@@ -1283,10 +1363,16 @@ func hostileCookie(e *ev.Env, c *ev.Case, kind string, cookie []byte) {
 	view := serverView(cookie)
 	_, wellFormed := mpWellFormed(view)
 	if kind == "" || kind == "invalid" || kind == "nonconforming" {
+		// Judged are only the classes that are ill-formed under any MessagePack list-of-maps
+		// layout: not (complete) MessagePack, bytes after the complete object, a top-level object
+		// that is no array. A complete array whose elements are not what fiber writes (missing,
+		// extra, differently typed fields) is counted, not judged.
 		if rest, ok := mpSkip(view, 0); ok && len(rest) > 0 {
-			kind = "trailing-bytes" // one complete MessagePack object and then more bytes
+			kind = "trailing-bytes"
+		} else if ok && len(view) > 0 && view[0]&0xf0 != 0x90 && view[0] != 0xdc && view[0] != 0xdd {
+			kind = "invalid" // top-level object is no array
 		} else if ok {
-			kind = "nonconforming" // MessagePack all right, not a message list fiber writes
+			kind = "nonconforming"
 		} else {
 			kind = "invalid"
 		}
